@@ -105,6 +105,53 @@ fn evalfail(cx: &mut Cx, backend: &str, err: String) {
     cx.id += 1;
 }
 
+/// every unary and binary operator applied to non-trivial (affine) arguments kept inside its domain: the chain
+/// rule factor of the argument must show up in every evaluator and in the symbolic derivative
+fn chain_rule_programs() -> Vec<Prog> {
+    use vharness::tapes::{GOp, BINARY, UNARY};
+    let affine = |out: i64, base: i64, shift: f32, scale: f32| -> Vec<GOp> {
+        // out = (0.3 x + 0.2 y - 0.1 z) * scale + shift, using slots base..base+5 ; ops in evaluation order
+        vec![
+            GOp::new(4, "Mul", base, 0, -1, bits(0.3)), GOp::new(4, "Mul", base + 1, 1, -1, bits(0.2)), GOp::new(4, "Mul", base + 2, 2, -1, bits(-0.1)),
+            GOp::new(6, "Add", base + 3, base, base + 1, 0), GOp::new(6, "Add", base + 4, base + 3, base + 2, 0),
+            GOp::new(4, "Mul", base + 5, base + 4, -1, bits(scale)), GOp::new(4, "Add", out, base + 5, -1, bits(shift)),
+        ]
+    };
+    let finish = |mut ops: Vec<GOp>, result: i64| -> Prog {
+        // SSA tapes list outputs first, then ops from the result back to the inputs
+        ops.reverse();
+        let mut ssa = vec![GOp::new(0, "Output", -1, result, 0, 0)];
+        ssa.extend(ops);
+        for k in (0..3).rev() {
+            ssa.push(GOp::new(1, "Input", k, k, -1, 0));
+        }
+        Prog { ssa, nvars: 3 }
+    };
+    let mut out = vec![];
+    for u in UNARY {
+        if matches!(u, "Floor" | "Ceil" | "Round" | "Not" | "Rand" | "Abs") {
+            continue; // piecewise constant / not smooth everywhere
+        }
+        let (shift, scale) = match u { "Sqrt" | "Ln" | "Recip" => (3.0, 1.0), "Asin" | "Acos" => (0.0, 0.4), _ => (0.25, 1.0) };
+        let mut ops = affine(10, 3, shift, scale);
+        ops.push(GOp::new(3, u, 11, 10, -1, 0));
+        out.push(finish(ops, 11));
+    }
+    for b in BINARY {
+        if matches!(b, "Min" | "Max" | "Compare" | "And" | "Or" | "Mod" | "Mix") {
+            continue;
+        }
+        let mut ops = affine(10, 3, 0.25, 1.0);
+        ops.extend(affine(20, 12, 3.0, 0.5));
+        ops.push(GOp::new(6, b, 21, 10, 20, 0));
+        out.push(finish(ops.clone(), 21));
+        ops.pop();
+        ops.push(GOp::new(6, b, 21, 20, 10, 0));
+        out.push(finish(ops, 21));
+    }
+    out
+}
+
 use vharness::ctxb::prog_to_ctx;
 
 fn symbolic(p: &Prog, pt: &[f32]) -> Result<Vec<[f32; 4]>, String> {
@@ -282,6 +329,12 @@ fn main() {
         let mut p = inst.instantiate(&ap);
         p.nvars = 3;
         whole(&mut cx, &p, &mut rng, k % 2 == 1 && p.nout() == 1);
+    }
+    // E: chain rule through every smooth operator (unit seeds, so that the symbolic derivative takes part)
+    for p in chain_rule_programs() {
+        for rep in 0..(if quick { 4 } else { 24 }) {
+            whole(&mut cx, &p, &mut rng, rep % 4 == 3);
+        }
     }
     let n = cx.id;
     file.flush().unwrap();
